@@ -876,7 +876,9 @@ func runCase(c *rig.Ctx, cs Case, st *stats) []rig.Failure {
 	// they lead to on the wire is what the property is about), up to a handful
 	stop := func() bool {
 		for _, f := range r.fails {
-			if f.Kind == "judge" {
+			// a name that still resolves after the delete does not end the history: the requests that follow show
+			// what it means on the wire (answered by a deleted cluster instead of 503)
+			if f.Kind == "judge" && f.Class != "c15.removed-name-resolves" {
 				return true
 			}
 		}
